@@ -102,6 +102,9 @@ type Step struct {
 	Spans [][2]string `json:"spans,omitempty"`
 	// N: ratchet target version / misc
 	N int `json:"n,omitempty"`
+	// Blobs: ingest / ingestexcise writes its tables with separated values
+	// (external blob files, DB.IngestAndExciseWithBlobs) where the format allows.
+	Blobs bool `json:"blobs,omitempty"`
 }
 
 func (s Step) String() string {
@@ -136,6 +139,9 @@ func (s Step) String() string {
 	}
 	if s.Flag {
 		b.WriteString(" flag")
+	}
+	if s.Blobs {
+		b.WriteString(" blobs")
 	}
 	if len(s.Spans) > 0 {
 		fmt.Fprintf(&b, " spans=%v", s.Spans)
